@@ -16,6 +16,8 @@ CHECKS = {
          "FFT convolution replaced by the validated direct-sum reference; dims <= 8 (1D) / 5x5 (2D)"),
  'C13': ("for every listed geometry, size, number of modes/steps and projection: fun2par(par2fun(p)) = p, projection idempotent, maps act column-wise on 2-3 column batches, reported shapes equal produced shapes, Samples/CUQIarray conversions agree with per-sample maps and round-trip, StepExpansion nodes partitioned and mapped to the documented step, KL expansion equals the documented sine series - all for ALL parameter vectors / function values",
          "dst/idst as validated linear-kernel stubs (tolerance 1e-9 over |p|<=64); StepExpansion grids from an enumerated concrete family (membership uses float comparisons that are not quantified over)"),
+ 'C19': ("every stored value a distinct symbol: burnthin(Nb,Nt) for ALL 0<=Nb<=Ns+1, 1<=Nt<=Ns+1 (Ns<=5/6, dims 1-3, 2-D function values, joint sets, chained calls) returns exactly columns b, b+t, ... with flags/geometry, refuses Nb>=Ns and leaves the source untouched; mean/variance/std/median/credible bounds equal the per-coordinate definitions for ALL values (lo<=median<=hi, width = hi-lo); statistics of function-value samples are those of the converted samples; arviz receives each variable's chain unpermuted",
+         "numpy.median/percentile replaced by their order-statistic definition (min/max terms); arviz replaced by a recorder"),
  'C20': ("exhaustive over sizes (1D n=2..6/8, 2D up to 3x3/4x4), boundary conditions, orders 0-2 and spacings: operator rows equal reference stencils applied to a symbolic vector, 2D = documented Kronecker stacking, precision = D^T D, symmetric, x^T P x = |Dx|^2, null space exactly the one implied by the bc (both inclusions as SMT implications), GMRF rank / sqrtprec / log-determinant consistent with the precision",
          "reference stencils written by loops from the documentation; the undocumented 'backward' rows are compared up to sign; float Cholesky factors enter as exact rationals with tolerance"),
 }
